@@ -269,6 +269,10 @@ def run(chk, replay=None):
                 axes.append((r.name + '.ys', numpy.array(r.ys)))
         for (start, step) in grids:
             axes.append(('grid %s/%s x400' % (start, step), numpy.array(exact_edges(start, step, 400))))
+    # grids whose step is larger than their first edge (no anchor-sized allowance helps): the quotient (v - a0) / h of an edge value
+    # must still floor to the edge's index, for every index up to 400
+    for (start, step) in (('0', '1.87'), ('0', '0.203'), ('0.1', '6.6'), ('1', '3.4'), ('0.5', '1.7'), ('5.95', '19.1'), ('0', '0.07'), ('-0.3', '0.7')):
+        axes.append(('wide-step grid %s/%s x400' % (start, step), numpy.array(exact_edges(start, step, 400))))
     offs = [0, 1, 2, 3, 17, 4096, -1, -2, -3, -17, -100, -4096]
     if not quick:
         offs = sorted(set(offs + list(range(-64, 65)) + [-(2 ** i) for i in range(6, 13)] + [2 ** i for i in range(6, 13)]))
